@@ -34,9 +34,10 @@ def build(name, parts, main_src, libs=("src/avtp/*.c", "src/avtp/acf/*.c", "src/
         for pat in libs:
             libsrc += sorted(glob.glob(os.path.join(R, pat)))
         exe = os.path.join(out, name)
-        r = common.run(SAN + inc + [os.path.join(common.VERIF, "harness", "ex", "vio.c"), os.path.join(common.VERIF, "harness", "ex", main_src)] + objs + list(extra_objs) + libsrc + ["-o", exe, "-lm"])
+        r = common.run(SAN + inc + [os.path.join(common.VERIF, "harness", "ex", "vio.c"), os.path.join(common.VERIF, "harness", "ex", main_src)] + objs + list(extra_objs) + libsrc + ["-o", exe + ".tmp.%d" % os.getpid(), "-lm"])
         if r.returncode != 0:
             raise common.ToolError("example harness %s does not link: %s" % (name, r.stderr[-2000:]))
+        os.replace(exe + ".tmp.%d" % os.getpid(), exe)  # atomic: a concurrent run may be executing exe
     return exe
 
 
